@@ -414,6 +414,7 @@ def r3_floor_ceil_pairing(repo=None):
 
     next_ms = "+".join(sorted([file_ms, OBJ + "->file_cadence_millisecs"]))
     c_this = c_next = None
+    unread = []
     for c in ceils:
         d0, d1, outv, rate = ceil_args(c)
         if rate != (OBJ + "->sample_rate_numerator", OBJ + "->sample_rate_denominator"):
@@ -424,6 +425,12 @@ def r3_floor_ceil_pairing(repo=None):
             c_this = (c, outv)      # the same (second, millisecond) split of the file's start time that is printed into the name
         elif d0 == ("/", next_ms) and d1 == ("%", next_ms):
             c_next = (c, outv)
+        elif d0 is None or d1 is None:
+            unread.append(c)        # (both read but of another quantity: a definite other time, judged below)
+    if (c_this is None or c_next is None) and unread:
+        # a ceil call whose time arguments this rule could not trace to the name parts: "no such call" cannot be concluded
+        raise AnalysisError("%s: the time arguments of `%s` were not traced to the (second, millisecond) printed into the name" % (
+            F, unread[0].nsrc[:70]))
     if c_this:
         r.ok("%s:%s %s" % (LIB, c_this[0].line, F), "first sample of this file = ceil(time printed in the name) [%s]" % c_this[1])
     else:
